@@ -1605,8 +1605,45 @@ fn check_image(ctx: &mut Ctx, scn: &StoreScn, img: &DirImage, want: &Model, infl
         }
         after_writes = Some(m);
     }
+    // a crash-left directory behaves like any other under compaction (on a share of images): a
+    // merge with the workload's thresholds changes no read, neither at once nor after a clean
+    // close and reopen (a killed merge leaves outputs and hint files that later merges and
+    // recoveries must cope with)
+    let mut after_merge = false;
+    if nth % 4 == 3 && ctx.out.violations.is_empty() {
+        ctx.sim.probe("merge_on_recovered_store");
+        match merge(&s.h) {
+            Ok(()) => match scan_all(&s.h, keys) {
+                Ok(m2) => {
+                    if let Some(d) = diff_models(&m2, &first_scan) {
+                        ctx.viol("recovered-store-changed-by-merge", format!("{} after I/O record {}: a merge on the recovered store changed what it reads (store vs before the merge): {} [image files: {}]", label, k, d, files_desc()), "");
+                    }
+                    after_merge = true;
+                }
+                Err(e) => ctx.viol("recovery-read-failed", format!("{} after I/O record {}: scan after a merge on the recovered store: {}", label, k, e), ""),
+            },
+            Err(e) => ctx.viol("recovered-store-unusable", format!("{} after I/O record {}: a merge on the recovered store failed: {} [image files: {}]", label, k, e, files_desc()), ""),
+        }
+    }
     drop(s);
     ctx.join_others();
+    if after_merge && ctx.out.violations.is_empty() {
+        match open_store(ctx, &irel, rec_cfg) {
+            Ok(s2) => {
+                match scan_all(&s2.h, keys) {
+                    Ok(m2) => {
+                        if let Some(d) = diff_models(&m2, &first_scan) {
+                            ctx.viol("recovered-store-changed-by-merge", format!("{} after I/O record {}: after a merge on the recovered store, a clean close and a reopen it reads differently (store vs before the merge): {} [image files: {}]", label, k, d, files_desc()), "");
+                        }
+                    }
+                    Err(e) => ctx.viol("recovery-read-failed", format!("{} after I/O record {}: reopen after a merge on the recovered store: {}", label, k, e), ""),
+                }
+                drop(s2);
+                ctx.join_others();
+            }
+            Err(e) => ctx.viol("recovery-open-failed", format!("{} after I/O record {}: the recovered directory cannot be reopened after a merge: {}", label, k, e), ""),
+        }
+    }
     if let Some(m) = after_writes {
         match open_store(ctx, &irel, rec_cfg) {
             Ok(s2) => {
